@@ -458,7 +458,7 @@ class CDSInterval(AbstractFeatureInterval):
         if self._chunk_relative_codon_locations_cached is True:
             codons = (str(codon_location.extract_sequence()) for codon_location in self.chunk_relative_codon_locations)
             seq = "".join(codons)
-            return seq
+            return Sequence(seq, Alphabet.NT_EXTENDED, validate_alphabet=False)
         if self.num_blocks > 1:
             window_fn = self._prepare_multi_exon_window_for_scan_codon_locations
         else:
